@@ -415,7 +415,7 @@ func (a *agg) evidence(reg *Registry, property, tier string, base int64, wall fl
 		"seed":        base,
 		"level":       "exploration",
 		"coverage":    cov,
-		"assumptions": reg.Assumptions[property],
+		"assumptions": assumptionsOr(reg.Assumptions[property]),
 		"wall_s":      wall,
 		"violations":  viol,
 	}
@@ -644,4 +644,11 @@ func SelfTestDeterminism(reg *Registry, property string, n int) int {
 		return 2
 	}
 	return 0
+}
+
+func assumptionsOr(a []string) []string {
+	if len(a) == 0 {
+		return []string{"Tendermint consensus is stubbed (the simulator drives ABCI directly)", "sampling, not enumeration: a clean batch is evidence, not proof"}
+	}
+	return a
 }
